@@ -139,6 +139,13 @@ pub struct C13 {
 /// a prefix of `stale` digits that was read and advanced over (so that stale digits sit behind the
 /// valid window inside the reader's buffer).
 fn eval(rep: &mut Report, t: usize, s: &[u8], o: usize, b: usize, stale: usize, fmask: u8) {
+    eval_state(rep, t, s, o, b, stale, fmask, 0)
+}
+
+/// `state`: 0 = 1-byte reads, chunk 1, `b` bytes requested before the call; 1 = as 0 but the reader has
+/// already seen the end of input (an earlier request went past it); 2 = everything arrived in one read
+/// (chunk 16384) without the end having been seen; 3 = one read and the end seen
+fn eval_state(rep: &mut Report, t: usize, s: &[u8], o: usize, b: usize, stale: usize, fmask: u8, state: u8) {
     let mut stream = Vec::with_capacity(stale + s.len());
     for i in 0..stale {
         stream.push(b'1' + (i % 9) as u8);
@@ -150,15 +157,21 @@ fn eval(rep: &mut Report, t: usize, s: &[u8], o: usize, b: usize, stale: usize, 
         if fmask & (1 << f) == 0 {
             continue;
         }
-        let src = Src::new(data.clone(), Policy::Fixed(1), 0);
+        let src = Src::new(data.clone(), if state >= 2 { Policy::OneShot } else { Policy::Fixed(1) }, 0);
         let mut r = DeferredReader::from_read(src.clone());
-        r.set_chunk_size(1);
+        r.set_chunk_size(if state >= 2 { 16384 } else { 1 });
         let (got, pos0, pos1, blen) = sut(|| {
             if stale > 0 {
                 r.request(stale);
                 r.advance(stale);
             }
             r.request(b);
+            if state == 1 || state == 3 {
+                // look past the end once: the reader is complete from here on
+                r.request(s.len() + 1);
+            } else if state == 2 {
+                r.request(1);
+            }
             let blen = r.buf_len();
             let pos0 = r.position();
             let got = scan_t(t, f, &mut r, o);
@@ -184,6 +197,10 @@ fn eval(rep: &mut Report, t: usize, s: &[u8], o: usize, b: usize, stale: usize, 
                     .set("offset", J::u(o))
                     .set("buffered_before_call", J::u(blen))
                     .set("stale_digit_prefix", J::u(stale))
+                    .set(
+                        "reader_state",
+                        J::s(["1-byte reads", "1-byte reads, end of input already seen", "one read, end not seen", "one read, end of input already seen"][state as usize]),
+                    )
                     .set("problems", J::A(bad.into_iter().map(J::s).collect())),
             );
         }
@@ -203,8 +220,12 @@ fn eval(rep: &mut Report, t: usize, s: &[u8], o: usize, b: usize, stale: usize, 
                 .u(t as u64)
                 .u(b as u64)
                 .u(stale as u64)
+                .u(state as u64)
                 .get(),
         );
+        if state == 1 || state == 3 {
+            rep.inc("evals_on_reader_that_has_seen_the_end");
+        }
         if rep.want_sample() && end - o > 9 {
             rep.sample(|| {
                 J::obj()
@@ -484,6 +505,7 @@ impl C13 {
                 // fully buffered (fast path) and barely buffered (cold path)
                 eval(rep, t, &s, 0, s.len(), 0, 0xf);
                 eval(rep, t, &s, 0, (k + neg as usize).min(7), 24, 0xc);
+                eval_state(rep, t, &s, 0, 0, 0, 0xf, 3);
             }
         }
     }
@@ -511,7 +533,7 @@ impl Monitor for C13 {
                         .collect()
                 };
                 // prefix so that the scan does not start at stream offset 0
-                let lead = if rng.chance(1, 3) { rng.usize(6) } else { 0 };
+                let lead = if rng.chance(1, 3) { rng.usize(13) } else { 0 };
                 let mut full: Vec<u8> = (0..lead).map(|_| *rng.pick(b" x-7")).collect();
                 full.extend_from_slice(&s);
                 let o = lead;
@@ -530,6 +552,11 @@ impl Monitor for C13 {
                     }
                 }
                 eval(rep, t, &full, o, full.len(), stale, 0xf);
+                // the other reader states: end of input already seen / everything from one read
+                for state in 1..4u8 {
+                    let b = if state == 1 { rng.usize(bmax + 1) } else { 0 };
+                    eval_state(rep, t, &full, o, b, stale, 0xf, state);
+                }
             }
         }
     }
